@@ -172,6 +172,32 @@ def run_clip(ctx, cv, chosen, clips, buffer, via):
                 outs.append(first)
                 ctx.check(unchanged(mask, msnap, what=('values', 'dims', 'names')), 'applying a clip mask leaves the mask as it was')
                 out = cv.apply_clip_mask(mask, wb)
+            elif via == 'mask_file_reused' and not ctx.symbolic:
+                # masks are saved to a file and read back before they are applied; the file name was used before, in
+                # this process, for another mask (everything kept) that was applied to a sibling dataset
+                import os
+                import shapely as _sh
+                p = os.path.join(wd, '..', f'reused-mask-{os.getpid()}.nc')
+                everything = _sh.box(*cv.bounds).buffer(1.0)
+                sibling = type(cv)(cv.dataset.copy(deep=True))
+                m0 = sibling.make_clip_mask(everything, buffer=0)
+                m0.to_netcdf(p)
+                m0 = xarray.open_dataset(p)
+                wd0 = os.path.join(wd, 'earlier')
+                os.mkdir(wd0)
+                sibling.apply_clip_mask(m0, wd0).load()
+                m0.close()
+                os.unlink(p)
+                mask = cv.make_clip_mask(clip, buffer=buffer)
+                mask.to_netcdf(p)
+                mask = xarray.open_dataset(p)
+                try:
+                    out = cv.apply_clip_mask(mask, wd).load()
+                finally:
+                    mask.close()
+                    os.unlink(p)
+            elif via == 'mask_file_reused':
+                out = cv.apply_clip_mask(cv.make_clip_mask(clip, buffer=buffer), wd)
             elif via == 'dup_faces':
                 # a mask made from a list of faces that names one of them twice (two overlapping queries joined)
                 from emsarray.conventions.ugrid import mask_from_face_indexes
@@ -418,6 +444,10 @@ def cases(tier, check='values'):
                 yield Case(f'{check}:grid:{conv}:{shape[0]}x{shape[1]}:{"coords" if as_coords else "vars"}:buf{buffer}:{via}', body_grid,
                            dict(conv=conv, shape=shape, buffer=buffer, via=via, as_coords=as_coords, check=check),
                            patches=_patches, max_paths=5000, split=(16 if shape[0] * shape[1] >= 6 else 0))
+    for conv, shape, as_coords in (('cf1d', (2, 2), True), ('shoc_standard', (1, 2), True)):
+        yield Case(f'{check}:grid:{conv}:{shape[0]}x{shape[1]}:coords:buf0:mask_file_reused', body_grid,
+                   dict(conv=conv, shape=shape, buffer=0, via='mask_file_reused', as_coords=as_coords, check=check),
+                   patches=_patches, max_paths=5000, split=(16 if shape[0] * shape[1] >= 6 else 0))
     # two neighbour rings on a strip long enough to tell one ring from two
     for conv, shape in (('shoc_standard', (1, 4)), ('cf2d', (1, 4))) if q else (('shoc_standard', (1, 4)), ('cf2d', (1, 4)), ('shoc_standard', (1, 5)), ('shoc_simple', (4, 1))):
         yield Case(f'{check}:grid:{conv}:{shape[0]}x{shape[1]}:coords:buf2:clip', body_grid,
